@@ -78,6 +78,9 @@ var httpBadHeads = []string{
 	"HTTP/1.1 200 OK\r\nContent-Type: text/html\r\n", // no terminator
 	"GET / HTTP/1.1\r\nHost: example.com",             // no terminator, no newline
 	"garbage\r\n\r\n", "HTTP\r\n\r\n", "GE", "HTTP/1.1 200 OK\r\nbad header line\r\n\r\n",
+	// status lines cut at every position behind the protocol name (and request lines likewise)
+	"HTTP/\r\n\r\n", "HTTP/1\r\n\r\n", "HTTP/1.1\r\n\r\n", "HTTP/1.1 \r\n\r\n", "HTTP/1.1 2\r\n\r\n", "HTTP/1.1 20\r\n\r\n", "HTTP/1.1 200\r\n\r\n",
+	"HTTP/1.1 2", "HTTP/1.1 20", "HTTP/1.1  \r\n\r\n", "GET\r\n\r\n", "GET \r\n\r\n", "GET /\r\n\r\n", "GET / \r\n\r\n", "GET / HTTP\r\n\r\n",
 }
 var payloadPool = []string{"", "hello", "<html>\r\n\r\n</html>", "\x00\xff", strings.Repeat("p", 70), "WARC/1.1\r\n"}
 
@@ -93,6 +96,10 @@ func genRecord(r *rng) *grec {
 	switch r.intn(20) {
 	case 0:
 		typeSpelling = strings.ToUpper(g.rtype)
+	case 2:
+		typeSpelling = strings.ToUpper(g.rtype[:1]) + g.rtype[1:] // Response, Request, ...
+	case 3:
+		typeSpelling = g.rtype[:1] + strings.ToUpper(g.rtype[1:])
 	case 1:
 		g.rtype = pick(r, []string{"foo", "x-custom", "Response2"})
 		typeSpelling = g.rtype
